@@ -142,8 +142,9 @@ class TalCheck(CheckBase):
         cover: set[str] = set()
         stats = {"fired": {}, "plans": 0, "probe_calls": 0}
         held: list = []       # exceptions kept alive across later renders
+        shared: dict = {}     # exception instances raised more than once
         for pi, (plan, hcfg) in enumerate(plans):
-            r = run_real(template, tmpl, plan, hcfg)
+            r = run_real(template, tmpl, plan, hcfg, shared)
             if r["raise"] is not None and self.hold_exceptions and \
                     len(held) < 80 and isinstance(r["raise"][1], Exception):
                 try:
@@ -164,6 +165,10 @@ class TalCheck(CheckBase):
                 v["plan_index"] = pi
                 v["plan"] = plan
                 v["handler"] = hcfg
+                if any(len(f["do"]) > 2 for f in plan):
+                    # (an exception object that earlier renders raised
+                    # too: the case is its list of plans)
+                    v["needs_history"] = True
                 violations.append(v)
             if self.is_nontrivial(plan, r, m):
                 nontrivial.append(short_hash([src, plan, hcfg]))
